@@ -25,11 +25,12 @@ import (
 func init() { register("C07", runC07) }
 
 type c07Route struct {
-	name string
-	main string            // template to render; the value is the context variable v
-	tpls map[string]string // all templates of the route (main included)
-	pre  string            // literal text the route adds before the escaped value
-	post string
+	name  string
+	main  string            // template to render; the value is the context variable v
+	tpls  map[string]string // all templates of the route (main included)
+	pre   string            // literal text the route adds before the escaped value
+	post  string
+	twice bool // the route escapes the value twice (an escape applied to escaped text escapes again)
 }
 
 func c07Routes() []c07Route {
@@ -38,7 +39,7 @@ func c07Routes() []c07Route {
 		for k, v := range extra {
 			t[k] = v
 		}
-		return c07Route{name, "main", t, pre, post}
+		return c07Route{name, "main", t, pre, post, strings.HasPrefix(name, "twice-")}
 	}
 	var rs []c07Route
 	for _, f := range []string{"e", "escape"} {
@@ -68,6 +69,11 @@ func c07Routes() []c07Route {
 			mk("arg-upper:"+f, "{{ v|"+f+"('HTML') }}", nil, "", ""),
 			mk("arg-undefined:"+f, "{{ v|"+f+"(nosuchstrategy) }}", nil, "", ""),
 			mk("arg-omitted-param:"+f, "{% macro m(x, s) %}{{ x|"+f+"(s) }}{% endmacro %}{{ _self.m(v) }}", nil, "", ""),
+			// escaping what is already escaped escapes again (the filter is not idempotent and no chain may drop a repetition)
+			mk("twice-chain:"+f, "{{ v|"+f+"|"+f+" }}", nil, "", ""),
+			mk("twice-mixed:"+f, "{{ v|e|escape|raw }}", nil, "", ""),
+			mk("twice-apply:"+f, "{% apply "+f+" %}{{ v|"+f+" }}{% endapply %}", nil, "", ""),
+			mk("twice-set:"+f, "{% set y = v|"+f+" %}{{ y|"+f+" }}", nil, "", ""),
 			// the same apply block entered again while it is being rendered (recursive macro, self-including template)
 			mk("apply-reentrant-macro:"+f, "{% macro rec(x, n, y) %}{% apply "+f+" %}[{{ x }}{% if n > 0 %}{{ _self.rec('i', n - 1, 'j') }}{% endif %}{{ y }}]{% endapply %}{% endmacro %}{{ _self.rec(v, 1, 'z') }}", nil, "[", "[ij]z]"),
 			mk("apply-reentrant-include:"+f, "{% include 'inc' with {'x': v, 'n': 1, 'y': 'z'} %}",
@@ -282,10 +288,10 @@ func c07CheckBatch(e *Env, engines []c07Engine, strs []string, want []string, ki
 			out, errs := c07Render(en, s)
 			bad := func(x string) bool {
 				o, er := c07Render(en, x)
-				w := html.EscapeString(x)
+				w := c07Expect(en, html.EscapeString(x))
 				return er != "" || o != en.route.pre+w+en.route.post
 			}
-			if errs != "" || out != en.route.pre+exp+en.route.post {
+			if errs != "" || out != en.route.pre+c07Expect(en, exp)+en.route.post {
 				small := s
 				if want == nil || html.EscapeString(s) == exp {
 					small = c07Shrink(s, bad)
@@ -293,7 +299,7 @@ func c07CheckBatch(e *Env, engines []c07Engine, strs []string, want []string, ki
 				r.Violate(Violation{Key: "escape-route-" + strings.SplitN(en.route.name, ":", 2)[0], What: fmt.Sprintf("route %s: output differs from Escape.escReg on %s input", en.route.name, kind),
 					Broken: "correspondence escape_reg (TwigModel.Escape.escReg vs filterEscape/html.EscapeString through " + en.route.name + ")",
 					Replay: map[string]any{"kind": "route", "route": en.route.name, "templates": en.route.tpls, "input_hex": c07Short(small), "full_input_len": len(s),
-						"impl_hex": c07Short(out), "impl_err": errs, "model_hex": c07Short(en.route.pre + exp + en.route.post)}})
+						"impl_hex": c07Short(out), "impl_err": errs, "model_hex": c07Short(en.route.pre + c07Expect(en, exp) + en.route.post)}})
 				if r.Full() {
 					return
 				}
@@ -311,7 +317,7 @@ func c07CheckBatch(e *Env, engines []c07Engine, strs []string, want []string, ki
 					r.Violate(Violation{Key: "unescape-roundtrip", What: "html.UnescapeString(escape(s)) ≠ s", Broken: "theorem C07_roundtrip no longer describes the code (implementation-only oracle)",
 						Replay: map[string]any{"kind": "roundtrip", "input_hex": c07Short(s), "out_hex": c07Short(inner), "decoded_hex": c07Short(back)}})
 				}
-			} else if inner != first {
+			} else if inner != c07Expect(en, first) {
 				r.Violate(Violation{Key: "routes-disagree", What: fmt.Sprintf("route %s and route %s escape the same value differently", engines[0].route.name, en.route.name),
 					Broken: "theorem C07_alias no longer describes the code (implementation-only oracle: e ≡ escape in every route)",
 					Replay: map[string]any{"kind": "routes", "input_hex": c07Short(s), "a": c07Short(first), "b": c07Short(inner)}})
@@ -650,7 +656,7 @@ func runC07(e *Env) error {
 		r.Seen("val:"+typ+":"+strsOf[i], true)
 		for _, en := range engines {
 			out, errs := c07Render(en, v)
-			if errs != "" || out != en.route.pre+exp+en.route.post {
+			if errs != "" || out != en.route.pre+c07Expect(en, exp)+en.route.post {
 				r.Violate(Violation{Key: "value-" + strings.SplitN(en.route.name, ":", 2)[0], What: fmt.Sprintf("route %s on a %s value: output is not escape(toString(v))", en.route.name, typ),
 					Broken: "correspondence escape_reg ∘ toString (filterEscape on non-string values)",
 					Replay: map[string]any{"kind": "value", "route": en.route.name, "type": typ, "value": fmt.Sprintf("%#v", v), "tostring_hex": hx(strsOf[i]), "impl_hex": c07Short(out), "impl_err": errs, "want_hex": c07Short(en.route.pre + exp + en.route.post)}})
@@ -711,4 +717,12 @@ func c07OtherEngineOverrides() {
 		x.RegisterString("t", "{{ v|e }}{{ v|escape }}{% apply escape %}{{ v }}{% endapply %}")
 		return x.Render("t", map[string]interface{}{"v": "<&>"})
 	})
+}
+
+// c07Expect: a route that escapes twice yields the escape of the escaped text (the byte-wise replacer applied again)
+func c07Expect(en c07Engine, escaped string) string {
+	if en.route.twice {
+		return html.EscapeString(escaped)
+	}
+	return escaped
 }
